@@ -3,6 +3,7 @@ module verifharness
 go 1.21
 
 require (
+	filippo.io/age v1.0.0
 	github.com/goccy/go-json v0.10.2
 	github.com/holiman/uint256 v1.2.4
 	github.com/indexsupply/shovel v0.0.0
@@ -13,7 +14,6 @@ require (
 
 require (
 	blake.io/pqx v0.2.1 // indirect
-	filippo.io/age v1.0.0 // indirect
 	github.com/jackc/pgpassfile v1.0.0 // indirect
 	github.com/jackc/pgservicefile v0.0.0-20240606120523-5a60cdf6a761 // indirect
 	github.com/jackc/puddle/v2 v2.2.1 // indirect
